@@ -4,7 +4,7 @@ from ..build import AnalysisBroken
 from ..callgraph import connects
 from ..effects import field_uses, top_function
 
-UNITS = ['client/QXmppRosterManager.cpp']
+UNITS = ['client/QXmppRosterManager.cpp', 'client/QXmppOutgoingClient.cpp', 'client/QXmppSaslManager.cpp', 'base/QXmppStreamManagement.cpp', 'base/Stream.cpp']
 RM = 'QXmppRosterManager'
 ENTRIES = 'QXmppRosterManagerPrivate::entries'
 PRESENCES = 'QXmppRosterManagerPrivate::presences'
@@ -128,6 +128,28 @@ def run(prog, run):
             problems.append('remove not control-dependent on subscriptionType()==Remove')
         if h.startswith('insert') and rem is not False:
             problems.append('insert not on the non-Remove edge')
+        if h.startswith('insert'):
+            # what is stored is the pushed item itself, not something merged with the old entry
+            par = hs.parents()
+            call = par.get(i)
+            while call is not None and hs.nodes[call]['k'] != 'call':
+                call = par.get(call)
+            val = hs.nodes[call]['args'][-1] if call is not None and hs.nodes[call].get('args') else None
+            vn = hs.nodes[hs.skip(val)] if val is not None else None
+            lv = None
+            for b in hs.blocks.values():
+                t = b.get('term')
+                if t and t.get('k') == 'rangefor' and 'QXmppRosterIq::items' in hs.fmt(t['range']):
+                    lv = t['loopvar']
+            same = vn is not None and vn['k'] == 'var' and vn.get('decl') == lv
+            if not same and vn is not None and vn['k'] == 'var' and vn.get('vk') == 'local':
+                d = hs.defs().get(vn['decl'])
+                init_is_item = d and d.get('init') is not None and hs.nodes[hs.skip(d['init'])].get('decl') == lv and not d.get('assigned')
+                mutated = any(c.get('obj') is not None and hs.nodes[hs.skip(c['obj'])].get('decl') == vn['decl'] and not (hs.sym(c) or {}).get('const')
+                              for _, c in hs.calls())
+                same = bool(init_is_item) and not mutated
+            if not same:
+                problems.append('the stored entry is not the pushed item (it is %s): the view is no longer the last roster plus the pushes' % (hs.fmt(val, inline=False)[:40] if val is not None else '?'))
         if problems:
             run.violation(r3, 'handleStanza#push-apply#' + h.split(' ')[0], hs.loc(i), '; '.join(problems))
         else:
@@ -138,6 +160,7 @@ def run(prog, run):
                             'a non-resumable disconnect clears', floor=6)
     conn = prog.fn(RM + '::_q_connected')
     disc = prog.fn(RM + '::_q_disconnected')
+    _resumed_flag(prog, run, r4)
     clr = prog.fn('QXmppRosterManagerPrivate::clear')
     sms = prog.enum('QXmppClient::StreamManagementState')
 
@@ -264,3 +287,19 @@ def _enclosing_rangefor(fn, nid):
         if t and t['k'] == 'rangefor' and i == 0 and 'range' in t:
             best = fn.fmt(t['range'])
     return best
+
+
+def _resumed_flag(prog, run, rid):
+    """streamManagementState() == ResumedStream must not be a leftover of an earlier session (shared with C10.R1 / C07.R5)"""
+    from . import C10
+    sub = type(run)(run.prop, run.tier, run.seed)
+    fns, byid = C10._scope(prog)
+    C10.r1(prog, sub, fns, byid)
+    run.instance(rid)
+    hits = [v for v in sub.violations if 'm_streamResumed' in v['key']]
+    if hits:
+        run.violation(rid, 'C2sStreamManager::m_streamResumed#stale', hits[0]['site'],
+                      'the "stream resumed" flag is not reset for every new stream: a later session that binds afresh is reported as ResumedStream, so the roster manager '
+                      'neither clears its cache nor requests the roster and shows the contacts and presences of the earlier session')
+    else:
+        run.ok(rid, 'src/client/QXmppOutgoingClient.cpp', 'ResumedStream cannot be a leftover: m_streamResumed is reset for every new stream (C10.R1)')
